@@ -1,4 +1,5 @@
 #include "vdrv.hpp"
+#include <mutex>
 #include "vcommon.hpp"
 #include <algorithm>
 #include <cinttypes>
@@ -183,8 +184,22 @@ htp_cfg_t *make_cfg(const Config &c, std::string *tmpdir_out) {
     return cfg;
 }
 
+static void install_trace_once() { static std::once_flag once; std::call_once(once, [] { if (&htp_verif_trace_fn) htp_verif_trace_fn = trace_cb; }); }
+
+Session::Session(htp_cfg_t *shared_cfg, const Config &c, const Plan &p, const Options &o) : c_(c), p_(p), o_(o) {
+    install_trace_once();
+    shared_cfg_ = true; cfg_ = cfg_base_ = shared_cfg;
+    if (!cfg_) return;
+    hard_limit_ = cfg_->field_limit_hard;
+    connp_ = htp_connp_create(cfg_);
+    if (!connp_) return;
+    htp_connp_set_user_data(connp_, this);
+    tl_cur = this;
+    htp_connp_open(connp_, "10.0.0.1", 32768, "10.0.0.2", 80, NULL);
+}
+
 Session::Session(const Config &c, const Plan &p, const Options &o) : c_(c), p_(p), o_(o) {
-    if (&htp_verif_trace_fn) htp_verif_trace_fn = trace_cb;
+    install_trace_once();
     cfg_base_ = make_cfg(c, &tmpdir_);
     if (!cfg_base_) return;
     cfg_ = cfg_base_;
@@ -515,8 +530,7 @@ Result &Session::finish() {
         htp_connp_destroy_all(connp_);
         connp_ = nullptr;
     }
-    if (cfg_ && cfg_ != cfg_base_) htp_config_destroy(cfg_);
-    if (cfg_base_) htp_config_destroy(cfg_base_);
+    if (!shared_cfg_) { if (cfg_ && cfg_ != cfg_base_) htp_config_destroy(cfg_); if (cfg_base_) htp_config_destroy(cfg_base_); }
     cfg_ = cfg_base_ = nullptr;
     if (!tmpdir_.empty()) {
         if (DIR *dp = opendir(tmpdir_.c_str())) { while (dirent *de = readdir(dp)) { if (de->d_name[0] == '.') continue; unlink((tmpdir_ + "/" + de->d_name).c_str()); } closedir(dp); }
